@@ -21,6 +21,7 @@ import (
 
 	"google.golang.org/grpc"
 	"google.golang.org/grpc/credentials/insecure"
+	"google.golang.org/grpc/test/bufconn"
 	"google.golang.org/protobuf/proto"
 	"google.golang.org/protobuf/reflect/protoreflect"
 	"google.golang.org/protobuf/types/dynamicpb"
@@ -125,6 +126,7 @@ type CancelCase struct {
 	Client  string `json:"client"`  // grpc-cancel | grpc-deadline | http-disconnect | grpcweb-disconnect
 	LateEnd bool   `json:"lateend"` // raw HTTP/1.1 clients, complete bodies: chunked, the terminating chunk arrives 150 ms after the message
 	Gzip    bool   `json:"gzip"`    // http-disconnect, client streams, blockedFirstRecv: the upload is Content-Encoding: gzip and breaks off inside the gzip stream
+	Via     string `json:"via"`     // local: the handler is registered on the mux; proxied: it runs on a backend behind RegisterConn
 	Fam     string `json:"fam"`
 }
 type CancelEv struct {
@@ -135,6 +137,7 @@ type CancelEv struct {
 	Client     string `json:"client"`
 	LateEnd    bool   `json:"lateend"`
 	Gzip       bool   `json:"gzip"`
+	Via        string `json:"via"`
 	Reached    bool   `json:"reached"`    // the handler was in the intended position when the client cancelled
 	CtxDone    bool   `json:"ctxdone"`    // the handler's context ended within the wait
 	DoneBefore bool   `json:"donebefore"` // ... it had already ended before the client did anything
@@ -168,7 +171,10 @@ func (s *sockServer) stop() { s.srv.Close() }
 const cancelWait = 5 * time.Second
 
 func runCancelCase(c CancelCase) (ev CancelEv) {
-	ev = CancelEv{Ev: "Cancel", Case: c.ID, Shape: c.Shape, Point: c.Point, Client: c.Client, LateEnd: c.LateEnd, Gzip: c.Gzip}
+	ev = CancelEv{Ev: "Cancel", Case: c.ID, Shape: c.Shape, Point: c.Point, Client: c.Client, LateEnd: c.LateEnd, Gzip: c.Gzip, Via: c.Via}
+	if ev.Via == "" {
+		ev.Via = "local"
+	}
 	defer func() {
 		if p := recover(); p != nil {
 			ev.Crash = fmt.Sprint(p)
@@ -294,7 +300,33 @@ func runCancelCase(c CancelCase) (ev CancelEv) {
 		}
 		return nil
 	}
-	if err := larking.VerifRegisterService(mux, MakeServiceDesc(sds[0], un, st), struct{}{}); err != nil {
+	if c.Via == "proxied" {
+		// the handler lives on a backend: the client's cancellation has to travel through larking's forwarder
+		if mux, err = larking.NewMux(); err != nil {
+			ev.Crash = "setup: " + err.Error()
+			return
+		}
+		lis := bufconn.Listen(1 << 20)
+		gs := grpc.NewServer()
+		gs.RegisterService(MakeServiceDesc(sds[0], un, st), struct{}{})
+		rpbRegister(gs, files)
+		go gs.Serve(lis)
+		defer gs.Stop()
+		bcc, err := grpc.NewClient("passthrough:///cancel", grpc.WithContextDialer(func(ctx context.Context, _ string) (net.Conn, error) { return lis.DialContext(ctx) }),
+			grpc.WithTransportCredentials(insecure.NewCredentials()))
+		if err != nil {
+			ev.Crash = "setup: " + err.Error()
+			return
+		}
+		defer bcc.Close()
+		rctx, rcancel := context.WithTimeout(context.Background(), 10*time.Second)
+		err = mux.RegisterConn(rctx, bcc)
+		rcancel()
+		if err != nil {
+			ev.Crash = "setup: RegisterConn: " + err.Error()
+			return
+		}
+	} else if err := larking.VerifRegisterService(mux, MakeServiceDesc(sds[0], un, st), struct{}{}); err != nil {
 		ev.Crash = "setup: " + err.Error()
 		return
 	}
